@@ -30,7 +30,15 @@ TECHNIQUE = "Lean 4 proof (permutation-invariant champion fold; admission invari
 
 
 def spec_judge(kv, ops, iobs, sobs, r):
+    given = {}      # TransportServer key -> (listener|host) as NGINX was last given it: the emitted changes applied in order
     for i, (io, so) in enumerate(zip(iobs, sobs)):
+        for op, snap, err in io["C"]:
+            if snap["kind"] != "TransportServer" or snap.get("lname") == "tls-passthrough":
+                continue
+            if op == "D":
+                given.pop(snap["key"], None)
+            else:
+                given[snap["key"]] = "%s|%s" % (snap.get("lname"), snap.get("host", ""))
         act = {}
         for k, d in io["R"].items():
             if d["kind"] == "TransportServer" and d.get("lname") != "tls-passthrough":
@@ -45,6 +53,14 @@ def spec_judge(kv, ops, iobs, sobs, r):
             want[lk] = (f[0], f[1], f[2], f[3])
         if act != want:
             return "after op#%d (%s) active TransportServers differ: real=%s Spec=%s" % (i, ops[i], sorted(act.items()), sorted(want.items()))
+        # "served by": what the emitted changes have given NGINX, pair by pair, must be the Spec's owners too (seed C02-6: the owner is
+        # reported active while the batch deleted its configuration)
+        served = dict((lk, k) for k, lk in given.items())
+        if len(served) != len(given):
+            return "after op#%d (%s) the emitted changes leave two TransportServers configured on one listener/host: %s" % (i, ops[i], sorted(given.items()))
+        wantk = dict((lk, v[0]) for lk, v in want.items())
+        if served != wantk:
+            return "after op#%d (%s) the TransportServers NGINX was given differ from the owners: given=%s Spec=%s" % (i, ops[i], sorted(served.items()), sorted(wantk.items()))
         if ops[i].startswith("gc|") or ops[i] == "gc":
             if io["L"] is None or so["A"] is None:
                 return "missing admission output"
